@@ -38,6 +38,32 @@ def gen_params():
                   "--out", os.path.join(COQ, "Params.v"), "--json", os.path.join(BUILD, "params.json")])
     return rc == 0, out.strip()
 
+def gen_code(groups):
+    """Regenerate coq/Gen/Code<Group>.v (translated Rust kernels) from the current source.
+    Returns {group: (ok, message)}."""
+    rc, out = sh([sys.executable, os.path.join(VERIF, "tools", "rs2coq.py"), "--repo", REPO,
+                  "--outdir", os.path.join(COQ, "Gen"), "--groups", ",".join(groups)])
+    res = {}
+    for g in groups:
+        ok = f"rs2coq: group={g} ok" in out
+        m = re.search(r"rs2coq: TIE BROKEN group=%s: (.*)" % re.escape(g), out)
+        res[g] = (ok, "ok" if ok else (m.group(1) if m else out.strip()[-400:]))
+    return res
+
+def tie_theorems(groups):
+    """names of the theorems and Print Assumptions lines in Gen/Tie<Group>.v"""
+    names, prints, nfun = [], [], 0
+    for g in groups:
+        try:
+            txt = open(os.path.join(COQ, "Gen", f"Tie{g}.v"), encoding="utf-8").read()
+            code = open(os.path.join(COQ, "Gen", f"Code{g}.v"), encoding="utf-8").read()
+        except OSError:
+            continue
+        names += re.findall(r"^Theorem\s+(\w+)", txt, flags=re.M)
+        prints += re.findall(r"^Print Assumptions\s+(\w+)\.", txt, flags=re.M)
+        nfun += len(re.findall(r"^Definition rs_", code, flags=re.M))
+    return names, prints, nfun
+
 def coq_makefile():
     mk = os.path.join(COQ, "Makefile.coq")
     proj = os.path.join(COQ, "_CoqProject")
@@ -64,7 +90,7 @@ def coq_build(targets, timeout=1500, jobs=16):
     # Props files print their assumptions at compile time; force them to be
     # recompiled so that the output is there to be parsed.
     for t in targets:
-        if t.startswith("Props/"):
+        if t.startswith("Props/") or t.startswith("Gen/Tie"):
             vo = os.path.join(COQ, t)
             if os.path.exists(vo):
                 os.remove(vo)
@@ -106,7 +132,7 @@ def build_model(timeout=900):
     deps = []
     for root, _, files in os.walk(COQ):
         for f in files:
-            if f.endswith(".vo") and not root.endswith("Props"):
+            if f.endswith(".vo") and not root.endswith("Props") and not root.endswith("Gen"):
                 deps.append(os.path.join(root, f))
     newest = max(os.path.getmtime(p) for p in srcs + deps)
     if os.path.exists(exe) and os.path.getmtime(exe) >= newest:
